@@ -53,9 +53,11 @@ class PrefetchIterator:
     self._cond = threading.Condition()
     self._buffer = []
     self._active = True
+    # Must be initialized before the thread starts: the prefetch loop stores the
+    # source's exception here, possibly before `start()` returns.
+    self._error = None
     self._thread = threading.Thread(target=self._prefetch_loop, daemon=True)
     self._thread.start()
-    self._error = None
 
   def __iter__(self):
     return self
